@@ -13,10 +13,13 @@ CONSTANTS Emit, Small
 N(str) == CASE str = "0" -> <<48>> [] str = "1" -> <<49>> [] str = "5" -> <<53>> [] str = "10" -> <<49,48>>
             [] str = "u32" -> U32T [] str = "u32+1" -> <<52,50,57,52,57,54,55,50,57,54>>
             [] str = "u64" -> U64T [] str = "u64+1" -> <<49,56,52,52,54,55,52,52,48,55,51,55,48,57,53,53,49,54,49,54>>
+            [] str = "u32-1" -> <<52,50,57,52,57,54,55,50,57,52>> [] str = "i32+1" -> <<50,49,52,55,52,56,51,54,52,56>>
+            [] str = "u64-1" -> <<49,56,52,52,54,55,52,52,48,55,51,55,48,57,53,53,49,54,49,52>>
+            [] str = "i64+1" -> <<57,50,50,51,51,55,50,48,51,54,56,53,52,55,55,53,56,48,56>>
             [] str = "big" -> <<57,57,57,57,57,57,57,57,57,57,57,57,57,57,57,57,57,57,57,57,57,57,57,57,57>>
             [] str = "abc" -> <<97,98,99>> [] str = "7" -> <<55>> [] str = "x1" -> <<120,49>>
 SmallNums == { N(s) : s \in Small }
-BigNums == { N("u32"), N("u32+1"), N("u64"), N("u64+1"), N("big") }
+BigNums == { N("u32"), N("u32+1"), N("u64"), N("u64+1"), N("big"), N("u32-1"), N("i32+1"), N("u64-1"), N("i64+1") }
 Builds == { <<>>, <<N("abc")>>, <<N("7"), N("x1")>>, <<N("u32+1")>> }
 Labels == { L("alpha"), L("beta"), L("rc") }
 Slots == {"x", "y", "z", "ep", "pre", "post", "dev"}
